@@ -160,6 +160,8 @@ def run_case(case, st=None):
             return None
     carve = not case.get("no_carve")
     trig = []
+    if carve:
+        if neg_inverse(a): trig.append("C11-negated-inverse")
     for c in trig: st.setdefault("_known", {})[c] = 1
     if trig:
         return None
